@@ -71,10 +71,11 @@ def match_known(known, prop_id, v):
 
 
 def write_replay(prop_id, v):
-    d = os.path.join(VERIF, 'replays', prop_id)
+    base = os.environ.get('VERIF_EVIDENCE_DIR')
+    d = os.path.join(os.path.dirname(base), 'replays', prop_id) if base else os.path.join(VERIF, 'replays', prop_id)
     os.makedirs(d, exist_ok=True)
     body = {'property': prop_id, 'clause': v['clause'], 'where': v.get('where'),
-            'scenario': v.get('scenario'), 'choices': v.get('choices'),
+            'scenario': v.get('scenario'), 'ctx': v.get('ctx'), 'choices': v.get('choices'),
             'labels': v.get('labels'), 'deviations': v.get('deviations'),
             'detail': v.get('detail'), 'trace': v.get('trace'), 'case': v.get('case')}
     h = hashlib.sha1(json.dumps([body['clause'], body['where'], body['scenario'], body['choices'],
